@@ -30,6 +30,9 @@ CHECKS = {
  "C06": ("Bounded exhaustive exploration: every statement tree over {block, if, if-else (branches range over every statement form, so naked assignments, naked loops, naked ifs in then- and else-position, else-if chains, labels as branches), goto, loop, assignment, label} with at most 6 (quick) / 7 (thorough) statements and nesting depth 4, inside a function whose last statement is the label all gotos name. The real first-generation pipeline's verdict, the codes E800/E801/E840 with the lines they point at, and for accepted programs the exact set of L1800 lint lines are compared with the reference placement model.",
          "Trusted: the placement model in checks/c06.rs (from docs/features.md, docs/errors.md). Violations inside a branch that is itself rejected with E840 need not be reported separately (masking). Not covered: trees beyond the size bound.",
          "explicit-state enumeration of all statement trees of a small scope, verdicts compared with a reference model", "5 (C06)"),
+ "C05": ("Bounded exhaustive exploration: every function body (up to renaming of the two variables and the two labels) built from {var x, var y, use of x, use of y, A:, B:, goto A, goto B, if c goto A, if c goto B, loop} and nested blocks with at most 6 (quick) / 7 (thorough) statements and nesting depth 3, in three variants (plain; x also a parameter; x also a module constant), excluding bodies the C04 label model rejects. The real pipeline's verdict, the codes E402/E422/E424/E482 and the lines they point at are compared with the scoping model (lexical resolution, duplicate names, the documented prune rule); accepted bodies are additionally checked with an independent path analysis of the syntactic control-flow graph (no path from entry to a use avoids its declaration), and the IR generator's own LLVM verification runs on every accepted body.",
+         "Trusted: model/vars.rs and model/labels.rs. A name with duplicate declarations is judged for E422 only. Not covered: bodies beyond the size bound.",
+         "explicit-state enumeration of all programs of a small scope with symmetry reduction; reference model plus independent CFG reachability analysis", "5 (C05)"),
 }
 
 NOT_YET = {}
